@@ -3,8 +3,8 @@
 import sys, os, json, shutil, re
 ID, k, detected, how = sys.argv[1], sys.argv[2], sys.argv[3], sys.argv[4]
 R = os.environ.get("ROUND", "1")
-src = {"1": f"/tmp/seed/out/{ID}/{k}", "2": f"/tmp/seed/out2/{ID}/{k}", "3": f"/tmp/seed/out3/{ID}/{k}", "4": f"/tmp/seed/out4/{ID}/{k}"}[R]
-dst = {"1": f"/verif/seeded/{ID}-{k}", "2": f"/verif/seeded/{ID}-r2-{k}", "3": f"/verif/seeded/{ID}-r3-{k}", "4": f"/verif/seeded/{ID}-r4-{k}"}[R]
+src = {"1": f"/tmp/seed/out/{ID}/{k}", "2": f"/tmp/seed/out2/{ID}/{k}", "3": f"/tmp/seed/out3/{ID}/{k}", "4": f"/tmp/seed/out4/{ID}/{k}", "5": f"/tmp/seed/out5/{ID}/{k}"}[R]
+dst = {"1": f"/verif/seeded/{ID}-{k}", "2": f"/verif/seeded/{ID}-r2-{k}", "3": f"/verif/seeded/{ID}-r3-{k}", "4": f"/verif/seeded/{ID}-r4-{k}", "5": f"/verif/seeded/{ID}-r5-{k}"}[R]
 os.makedirs(dst, exist_ok=True)
 shutil.copy(src + "/patch.diff", dst + "/patch.diff")
 for name in ("demo", "demo.sh"):
@@ -21,7 +21,7 @@ except Exception as e:
     meta = {"note": "meta.json from the seeding agent unreadable: " + str(e)}
 conf = ""
 logs = ["/tmp/seed/" + l for l in sorted(os.listdir("/tmp/seed")) if l.startswith("confirm") and l.endswith(".log")]
-for cd in ("/tmp/seed/confirm3", "/tmp/seed/confirm4"):
+for cd in ("/tmp/seed/confirm3", "/tmp/seed/confirm4", "/tmp/seed/confirm5"):
     if os.path.isdir(cd):
         logs += [cd + "/" + l for l in sorted(os.listdir(cd))]
 for log in logs:
@@ -36,7 +36,8 @@ out = {
     "failing_input": meta.get("failing_input", ""),
     "origin": "independent sub-agent given only the property text and a scratch git worktree of /repo (nothing from /verif)" + ("; round 2: additionally required to be correct on all small/ordinary inputs and wrong only on large or rare ones" if R == "2" else "")
               + ("; round 3: required to need something specific to manifest (a multi-step history, a large or rare input, two cooperating edits, an unusual macro invocation, a panic at a particular point)" if R == "3" else "")
-              + ("; round 4 (on the tree with all repairs up to a6790b3): a change in the code a MACRO expands to at the call site, or in a rarely used corner of the API, that needs something specific to manifest" if R == "4" else ""),
+              + ("; round 4 (on the tree with all repairs up to a6790b3): a change in the code a MACRO expands to at the call site, or in a rarely used corner of the API, that needs something specific to manifest" if R == "4" else "")
+              + ("; round 5 (on the tree with all repairs up to a6790b3): an interaction of two features, or a difference between const evaluation and run time / an unusual element type" if R == "5" else ""),
     "confirmed_by_me": {
         "command": f"ROUND={R} notes/confirm_seed.sh {ID} {k}  (scratch worktree: apply patch; cargo test --workspace --no-fail-fast --offline; run demo; undo; run demo)",
         "result": conf,
